@@ -149,6 +149,11 @@ def main(argv=None):
         for f in r['findings']:
             rp = f.get('replay') or {}
             if not rp.get('reproduced'):
+                if f.get('advisory'):      # a rounding candidate (outside the exact-real model) that the real code does not confirm: no claim
+                    notes.append(f"unconfirmed rounding candidate dropped: {f.get('clause')} {json.dumps(f.get('inputs'))[:160]}")
+                    agg['sat'] = agg.get('sat', 0) - 1
+                    agg['obligations'] = agg.get('obligations', 0) - 1
+                    continue
                 nonrepro.append(f)
                 continue
             kid = f.get('known')
